@@ -318,5 +318,42 @@ func adderKeys(cp *pkg, known map[string]bool) []string {
 	if !found {
 		fatal("directiveFunctions initialiser not found")
 	}
+	// closed world: the composite literal above is the ONLY write to the table.  An element assignment, a second
+	// assignment of the field, a delete(), or the table handed to a function would make the key set read above a
+	// guess, so each of them is refused.
+	isTable := func(e ast.Expr) bool {
+		sel, ok := e.(*ast.SelectorExpr)
+		return ok && sel.Sel.Name == "directiveFunctions"
+	}
+	for _, f := range cp.files {
+		assigns := 0
+		ast.Inspect(f, func(n ast.Node) bool {
+			switch x := n.(type) {
+			case *ast.AssignStmt:
+				for _, l := range x.Lhs {
+					if ix, ok := l.(*ast.IndexExpr); ok && isTable(ix.X) {
+						cp.bad(x, "directiveFunctions is written outside its initialiser (element assignment)")
+					}
+					if isTable(l) {
+						assigns++
+						if assigns > 1 {
+							cp.bad(x, "directiveFunctions is assigned a second time")
+						}
+					}
+				}
+			case *ast.CallExpr:
+				for _, a := range x.Args {
+					if isTable(a) {
+						cp.bad(x, "directiveFunctions is handed to a call (delete, copy, a helper): its key set is no longer the literal's")
+					}
+				}
+			case *ast.IncDecStmt:
+				return true
+			case *ast.RangeStmt:
+				return true
+			}
+			return true
+		})
+	}
 	return out
 }
